@@ -32,6 +32,8 @@ func c07TwinMenu() []enga.ABlock {
 		ev(enga.Event{Kind: "req:withdraw", N: 2}, enga.Event{Kind: "req:withdraw", N: 1, Var: "bad-address"}),
 		ev(enga.Event{Kind: "tx:process", N: 1}),
 		ev(enga.Event{Kind: "req:cancel"}),
+		ev(enga.Event{Kind: "tx:hashes", N: 1}, enga.Event{Kind: "tx:finalize", Var: "stale-header"}),
+		ev(enga.Event{Kind: "tx:finalize"}),
 		ev(enga.Event{Kind: "tx:approve"}),
 		ev(enga.Event{Kind: "tx:approve", Var: "twice-listed"}),
 		ev(enga.Event{Kind: "req:lock", N: 1}, enga.Event{Kind: "req:unknown-validator-lock"}),
@@ -49,6 +51,38 @@ func c07ResultDigest(res *enga.Result) string {
 	}
 	o := c07FinalizeOutcome(res.Finalize)
 	return fmt.Sprintf("%s|%v|%v", o.AppHash, o.Txs, o.Updates)
+}
+
+// c07TwinDiverges re-executes one history both ways from a fresh root and reports whether
+// the two executions differ in any block (used to re-check a reported divergence).
+func c07TwinDiverges(path []enga.ABlock) bool {
+	root, err := enga.NewWorld(c18Cfg())
+	must(err)
+	defer root.Close()
+	var digests []string
+	w := root
+	var owned []*enga.World
+	defer func() {
+		for _, o := range owned {
+			o.Close()
+		}
+	}()
+	for _, b := range path {
+		c, err := w.Fork()
+		must(err)
+		owned = append(owned, c)
+		digests = append(digests, c07ResultDigest(c.Run(b)))
+		w = c
+	}
+	twin, err := root.Fork()
+	must(err)
+	defer twin.Close()
+	for i, b := range path {
+		if c07ResultDigest(twin.Run(b)) != digests[i] {
+			return true
+		}
+	}
+	return false
 }
 
 func c07Twins(r *mc.Run) {
@@ -72,9 +106,12 @@ func c07Twins(r *mc.Run) {
 				r.Transitions.Add(1)
 				r.Validated.Add(1)
 				if d := c07ResultDigest(res); d != digests[i] {
+					if res.Err != nil {
+						d += " (" + clip(res.Err.Error(), 400) + ")"
+					}
 					cls := "replica-diverges:one-instance-through-the-history-vs-instance-per-block"
 					r.Violate(mc.Violation{Class: cls, Msg: fmt.Sprintf("block %d of history %v: %s | vs | %s", i+1, aPath(path), clip(d, 300), clip(digests[i], 300)),
-						Detail: map[string]any{"history": path, "mode": "twin"}}, nil)
+						Detail: map[string]any{"history": path, "mode": "twin"}}, func() bool { return c07TwinDiverges(path) })
 					return
 				}
 			}
